@@ -39,6 +39,28 @@ Theorem C05_publish_to_closed_is_noop : forall (E : Type) (e : E) (s : sub E) (k
 Proof. exact publish_to_closed_is_noop. Qed.
 Print Assumptions C05_publish_to_closed_is_noop.
 
+(* the same guarantee one level down, on the goroutine-level protocol
+   (PubLts.v: one step per channel operation of publisher.run /
+   distributeEvent / subscription.send / subscription.run, the publisher
+   visiting its table in any order, consumers and closes interleaved
+   arbitrarily): a subscription that is in the table, never found its buffer
+   full and never had a send fail holds exactly the events picked up since it
+   subscribed — received ++ buffered ++ in hand — in order *)
+From KC Require Import PubLts PubLtsProps.
+Theorem C05_lts_subscriber_sees_exact_suffix : forall (E : Type) l (p : cpub E) i c, crun cinit l = Some p ->
+  nth_error (k_subs p) i = Some c ->
+  c_drops c = 0 -> c_failed c = 0 -> c_listed c = true ->
+  held E c = skipn (c_from c) (seen_for E p i).
+Proof. exact lts_subscriber_sees_exact_suffix. Qed.
+Print Assumptions C05_lts_subscriber_sees_exact_suffix.
+
+Theorem C05_lts_quiescent_exact : forall (E : Type) l (p : cpub E) i c, crun cinit l = Some p ->
+  nth_error (k_subs p) i = Some c -> k_cur p = None -> c_hand c = None ->
+  c_drops c = 0 -> c_failed c = 0 -> c_listed c = true ->
+  c_passed c ++ c_queue c = expected_suffix (c_from c) (k_seen p).
+Proof. exact lts_quiescent_exact. Qed.
+Print Assumptions C05_lts_quiescent_exact.
+
 (* through clones of any depth: received ++ in flight = a suffix of what the
    root published; hence any two subscribers see subsequences of one sequence *)
 Theorem C05_leaf_receives_suffix : forall (E : Type) (levels : list (level E)) (seen : list E),
